@@ -248,6 +248,7 @@ func init() {
 		}
 		ex.assume(ex.forallDenom(func(d *smt.Term) *smt.Term { return smt.Ge(ex.amtOf(coins, d), smt.IntC(0)) }, coins))
 		w.bankDelta(mod(t(c, 2)), coins, +1, true)
+		ex.SupplyEvents = append(ex.SupplyEvents, SupplyEvent{Kind: "mint", Coins: coins, Module: t(c, 2), Pos: ex.posOf(c)})
 		w.Log = append(w.Log, "bank mint")
 		return ex.nilErr()
 	}, "BankKeeper.MintCoins")
@@ -265,6 +266,7 @@ func init() {
 			return smt.And(smt.Ge(a, smt.IntC(0)), smt.Ge(ex.bal(w, m, d), a))
 		}, coins))
 		w.bankDelta(m, coins, -1, true)
+		ex.SupplyEvents = append(ex.SupplyEvents, SupplyEvent{Kind: "burn", Coins: coins, Module: t(c, 2), Pos: ex.posOf(c)})
 		w.Log = append(w.Log, "bank burn")
 		return ex.nilErr()
 	}, "BankKeeper.BurnCoins")
@@ -388,4 +390,12 @@ func (ex *Exec) asBytes(v Val) *BytesV {
 	}
 	ex.abort("expected bytes, got %T", v)
 	return nil
+}
+
+func (ex *Exec) posOf(c *Call) string {
+	if c.Ins != nil && c.Ins.Pos().IsValid() {
+		p := ex.Cfg.Prog.Fset.Position(c.Ins.Pos())
+		return shortFile(p.Filename) + ":" + itoa(p.Line)
+	}
+	return "?"
 }
